@@ -44,10 +44,12 @@ Theorem C02_writer_drops_request_refuted :
   let s := brun false [0] [SCheck 0; SEnq 0; WTake 0; EStopQuit; WHandOverQuit 0; EConnLost; RExit; DDrain] in
   finished [0] s = true /\ place s 0 = LLost.
 Proof. exact writer_drops_request_refuted. Qed.
+Print Assumptions C02_writer_drops_request_refuted.
 Theorem C02_send_after_drain_refuted :
   let s := brun false [0] [SCheck 0; EStopQuit; EConnLost; WQuit; RExit; DDrain; SEnq 0] in
   finished [0] s = true /\ place s 0 = LPending.
 Proof. exact send_after_drain_refuted. Qed.
+Print Assumptions C02_send_after_drain_refuted.
 
 (* non-vacuity: the same schedules with the repaired code end with the request answered *)
 Example C02_writer_answers : place (brun true [0] [SCheck 0; SEnq 0; WTake 0; EStopQuit; WHandOverQuit 0; EConnLost; RExit; DDrain]) 0 = LDone.
